@@ -1,3 +1,5 @@
+import OutlineModel.Proofs.TieMisc
+import OutlineModel.Gen.Decisions
 import OutlineModel.Model.TCP
 import OutlineModel.Proofs.CipherList
 import OutlineModel.Gen.Wiring
@@ -98,5 +100,15 @@ theorem postauth_drained (s : Script) (hidle : s.clientEnd = .idle) (status : St
 /-- **wiring**: every authentication error takes the absorb branch; the handshake timeout is the
     documented 59 s (generated facts). -/
 theorem wiring : Gen.Wiring.tcpAuthFailureIsAbsorbed = true ∧ Gen.tcpReadTimeoutNs = 59000000000 := by decide
+
+
+/-- **code_drain_result**: the translated `drainErrToString` (service/tcp.go) — the drain result reported with every probe —
+    never panics and is "eof" for a clean end, "timeout" for a net.Error that timed out, "other" otherwise; these are the
+    three literals of the generated table -/
+theorem code_drain_result (timeout impl : Option String → Bool) (e : Option String) :
+    Gen.Code.drainErrToString timeout impl e =
+      some (if e = none then "eof" else if impl e && timeout e then "timeout" else "other") ∧
+    Gen.Decisions.drainResults = ["eof", "other", "timeout"] :=
+  ⟨Tie.Misc.drainErrToString_tie timeout impl e, by decide⟩
 
 end OutlineModel.Props.C06
